@@ -12,4 +12,9 @@ pub trait TokenStream {
     fn text(&self, range: Range<usize>) -> &str;
 
     fn take_error(&mut self) -> Option<EcoString>;
+
+    /// An error that was found at the end of the input and belongs to no token.
+    fn take_pending_error(&mut self) -> Option<EcoString> {
+        None
+    }
 }
